@@ -30,10 +30,21 @@ pub fn blackhole(v6: bool) -> Option<Blackhole> {
     for _ in 0..8 {
         match TcpStream::connect_timeout(&addr, Duration::from_millis(120)) {
             Ok(s) => held.push(s),
-            Err(_) => return Some(Blackhole { _l: l, _held: held, addr }),
+            // only a connect that is still pending when the timeout fires shows a full queue; any
+            // other error (port exhaustion, a reset under load) means this is not a black hole
+            Err(e) if e.kind() == std::io::ErrorKind::TimedOut => return Some(Blackhole { _l: l, _held: held, addr }),
+            Err(_) => return None,
         }
     }
     None
+}
+
+impl Blackhole {
+    /// still swallowing SYNs? (checked after a scenario: a scripted peer that did not behave as
+    /// scripted invalidates the scenario, not the code under test)
+    pub fn still_black(&self) -> bool {
+        matches!(TcpStream::connect_timeout(&self.addr, Duration::from_millis(60)), Err(e) if e.kind() == std::io::ErrorKind::TimedOut)
+    }
 }
 
 pub fn closed_port(v6: bool) -> SocketAddr {
@@ -122,7 +133,13 @@ fn run_cfg(cfg: &Cfg, host: &str) -> Option<Obs> {
             (format!("err:{}", kind), None)
         }
     };
+    // the scripted peers must still be what the scenario says: black holes black, closed ports closed
+    let env_ok = holes.iter().all(|h| h.still_black())
+        && cfg.addrs.iter().zip(&addrs).all(|((_, b), a)| *b != 'r' || matches!(TcpStream::connect_timeout(a, Duration::from_millis(200)), Err(e) if e.kind() == std::io::ErrorKind::ConnectionRefused));
     drop(holes);
+    if !env_ok {
+        return None;
+    }
     Some(Obs { line, elapsed_ms: elapsed, winner })
 }
 
@@ -219,7 +236,8 @@ pub fn generate(seed: u64, tier: &str, sink: &mut Sink) {
                 break;
             }
             let host = format!("race-{}-{}.test", w, i);
-            let o = run_cfg(&cfgs[i], &host);
+            // a scenario whose scripted peers misbehaved (see run_cfg) is set up again
+            let o = (0..3).find_map(|_| run_cfg(&cfgs[i], &host));
             results.lock().unwrap().push((i, o));
         }));
     }
@@ -234,7 +252,12 @@ pub fn generate(seed: u64, tier: &str, sink: &mut Sink) {
         let op = format!("happy {} {} {} {}", CONNECT_TIMEOUT_MS, cfg.deadline_ms.map(|d| d.to_string()).unwrap_or("~".into()), race_delay, if spec.is_empty() { "-".to_string() } else { spec.join(",") });
         let obs = match obs {
             Some(o) => o,
-            None => continue, // could not build a black hole on this run
+            None => {
+                // no valid scenario could be set up (black hole / closed port did not hold): keep the
+                // case index stable with a placeholder that asserts nothing
+                sink.push(Case { tags: vec!["kind=race".into(), "trivial".into(), "env-invalid".into()], op: "nop".into(), impl_line: "nop".into(), oracle: Ok(()) });
+                continue;
+            }
         };
         // oracle from the statement
         let any_accept = cfg.addrs.iter().any(|a| a.1 == 'a');
